@@ -628,9 +628,19 @@ def instr_sweep(ctx, want):
         per['/'.join(cfg)] = res['end']
         if res['end'] is None:
             incomplete.append('%s: %s' % (name, res['tail']))
+        confirmed = 0
         for row in res['rows']:
             total += 1
             ctx.evaluations += 1
+            if row['kinds'] == ['BLOCKED']:
+                # a child killed by its alarm: make sure it was not the machine that stalled - the same boundary
+                # alone, in a fresh process, must block again (the first three per configuration are re-run)
+                confirmed += 1
+                if confirmed <= 3:
+                    again = sweep_one(cfg, konly=row['k'], timeout=60)
+                    if not any(r2['k'] == row['k'] and r2['kinds'] == ['BLOCKED'] for r2 in again['rows']):
+                        hits['unconfirmed-stall'] = hits.get('unconfirmed-stall', 0) + 1
+                        continue
             for kind in row['kinds']:
                 hits[kind] = hits.get(kind, 0) + 1
                 if kind in want and hits[kind] <= 3:
